@@ -519,19 +519,44 @@ fn concat_parts(parts: Vec<Expr>, attr_ptr: &MySyntaxNodePtr) -> Expr {
     acc
 }
 
+// The runtime has a `<type>_to_string` function for every primitive type; only int32 also has
+// a `to_string` method.
+fn builtin_to_string_fn(ty: &ast::TypeExpr) -> Option<&'static str> {
+    match ty {
+        ast::TypeExpr::TUnit => Some("unit_to_string"),
+        ast::TypeExpr::TBool => Some("bool_to_string"),
+        ast::TypeExpr::TInt8 => Some("int8_to_string"),
+        ast::TypeExpr::TInt16 => Some("int16_to_string"),
+        ast::TypeExpr::TInt64 => Some("int64_to_string"),
+        ast::TypeExpr::TUint8 => Some("uint8_to_string"),
+        ast::TypeExpr::TUint16 => Some("uint16_to_string"),
+        ast::TypeExpr::TUint32 => Some("uint32_to_string"),
+        ast::TypeExpr::TUint64 => Some("uint64_to_string"),
+        ast::TypeExpr::TFloat32 => Some("float32_to_string"),
+        ast::TypeExpr::TFloat64 => Some("float64_to_string"),
+        _ => None,
+    }
+}
+
+fn call_to_string_method(value: Expr, attr_ptr: &MySyntaxNodePtr) -> Expr {
+    Expr::ECall {
+        func: Box::new(Expr::EField {
+            expr: Box::new(value),
+            field: AstIdent::new(TO_STRING_FN),
+            astptr: *attr_ptr,
+        }),
+        args: Vec::new(),
+        astptr: *attr_ptr,
+    }
+}
+
 fn call_to_string(value: Expr, ty: Option<&ast::TypeExpr>, attr_ptr: &MySyntaxNodePtr) -> Expr {
     if matches!(ty, Some(ast::TypeExpr::TString)) {
         value
+    } else if let Some(name) = ty.and_then(builtin_to_string_fn) {
+        call_function(name, vec![value], attr_ptr)
     } else {
-        Expr::ECall {
-            func: Box::new(Expr::EField {
-                expr: Box::new(value),
-                field: AstIdent::new(TO_STRING_FN),
-                astptr: *attr_ptr,
-            }),
-            args: Vec::new(),
-            astptr: *attr_ptr,
-        }
+        call_to_string_method(value, attr_ptr)
     }
 }
 
@@ -554,15 +579,7 @@ fn call_to_json(value: Expr, ty: Option<&ast::TypeExpr>, attr_ptr: &MySyntaxNode
         | Some(ast::TypeExpr::TUint32)
         | Some(ast::TypeExpr::TUint64)
         | Some(ast::TypeExpr::TFloat32)
-        | Some(ast::TypeExpr::TFloat64) => Expr::ECall {
-            func: Box::new(Expr::EField {
-                expr: Box::new(value),
-                field: AstIdent::new(TO_STRING_FN),
-                astptr: *attr_ptr,
-            }),
-            args: Vec::new(),
-            astptr: *attr_ptr,
-        },
+        | Some(ast::TypeExpr::TFloat64) => call_to_string(value, ty, attr_ptr),
         // Unit serializes as null
         Some(ast::TypeExpr::TUnit) => Expr::EString {
             value: "null".to_string(),
